@@ -5,14 +5,9 @@ use jpv::engine::Obs;
 use jpv::gen::{gen_doc, gen_query, render_with_blanks, GenCfg};
 use jpv::src::{bytes_to_choices, Src};
 use libfuzzer_sys::fuzz_target;
-use std::sync::Once;
 
-static INIT: Once = Once::new();
 
 fuzz_target!(|data: &[u8]| {
-    INIT.call_once(|| {
-        jpv::engine::install_quiet_panic_hook();
-    });
     if data.len() < 8 || data.len() > 600 {
         return;
     }
@@ -28,12 +23,20 @@ fuzz_target!(|data: &[u8]| {
     let text = render_with_blanks(&mut src, &q, blanks);
     let mut obs = Obs::new();
     obs.counting = false;
-    for (name, r) in [
+    let mut results = vec![
         ("C01", jpv::props::c01::check(&q, &text, &doc, true, &mut obs)),
-        ("C02", jpv::props::c02::check(&q, &text, &doc, &mut obs)),
         ("C03", jpv::props::c03::check(&q, &text, &doc, &mut obs)),
-    ] {
+    ];
+    // C02's check attributes only the ordering finding K1: names that need escapes (K3 region) are
+    // C01's and C03's business
+    if !cfg.special_keys {
+        results.push(("C02", jpv::props::c02::check(&q, &text, &doc, &mut obs)));
+    }
+    for (name, r) in results {
         if let Err(f) = r {
+            if f.harness {
+                continue;
+            }
             panic!("{}: {} :: {}", name, f.msg, f.case);
         }
     }
